@@ -177,10 +177,11 @@ func (s *State) parseIPTables(lines []string) tables {
 				v := negate + strings.Join(args, " ")
 
 				// Hard coded special case:
-				// ! --tcp-flags FIN,SYN,RST,ACK SYN ==> ! --syn
-				if key == "--tcp-flags" && v == "!FIN,SYN,RST,ACK SYN" {
+				// [!] --tcp-flags FIN,SYN,RST,ACK SYN ==> [!] --syn
+				if key == "--tcp-flags" &&
+					strings.Join(args, " ") == "FIN,SYN,RST,ACK SYN" {
 					key = "--syn"
-					v = "!"
+					v = negate
 				}
 				pairs[key] = v
 			}
